@@ -6,12 +6,35 @@ From AB Require Import Prelude Spacing SpacingProofs.
 (* getter: after skipping zero-width tokens the getter returns the text of the unique maximal run of
    Newline/Whitespace tokens (travel order: forwards from last_token for spacing_after, backwards
    from first_token for spacing_before; `find_spacing l` is what both raw getters compute on that list) *)
-Theorem C17_get : forall l : list tok,
+Theorem C17_get_scan : forall l : list tok,
   exists S, spacing_run_of l S /\ (forall S2, spacing_run_of l S2 -> S2 = S)
             /\ find_spacing l = filter nonempty S /\ txt (find_spacing l) = txt S.
 Proof. exact run_exists_unique. Qed.
 
-(* adjacent models see the same run from both sides when the gap is  empties* spacing* empties*  *)
+(* The getter clause as the property states it - "exactly the run of blanks and newlines adjacent to it" in
+   the PRINTED TEXT (text_run: zero-width tokens print nothing) - is FALSE on the unchanged tree: the scan
+   stops at a zero-width mark, so with blanks in front of the end-of-line mark ("open Assets:A  \n") the
+   account's spacing_after is "  " while the adjacent run in the text is "  \n". By design (the comment in
+   _find_spacing: "must not interleave with special tokens to avoid removing them in spacing update"); known
+   finding C17:both-sides:blanks-before-eol. Proved instead: the clause holds exactly when no zero-width
+   mark splits the run. *)
+Theorem C17_get_partial : forall l, split_by_mark l = false -> find_spacing l = text_run l.
+Proof. exact get_text_partial. Qed.
+
+Theorem C17_get_only_then : forall l, split_by_mark l = true -> txt (find_spacing l) <> txt (text_run l).
+Proof. exact get_text_split. Qed.
+
+(* witness: the tokens after `Assets:A` in  "2000-01-01 open Assets:A  \n2000-01-02 close Assets:A\n" *)
+Definition finding_doc : list tok :=
+  [mktok KOther [65]; mktok KWhitespace [32; 32]; mktok KOther []; mktok KOther []; mktok KNewline [10];
+   mktok KOther [50]].
+Theorem C17_get_refuted : exists l, txt (find_spacing l) <> txt (text_run l).
+Proof. exists (skipn 1 finding_doc). vm_compute. discriminate. Qed.
+
+(* adjacent models see the same run from both sides when the gap is  empties* spacing* empties*, i.e. when
+   no zero-width mark splits the run between them (for a gap between consecutive visible tokens, which
+   consists of zero-width and spacing tokens only, the other shape is spacing - mark - spacing: the
+   signature of the finding); the unconditional clause is refuted below *)
 Theorem C17_both_sides : forall pre a E1 G E2 b post,
   Forall (fun t => is_empty t = true) E1 -> Forall (fun t => is_spacing t = true) G ->
   Forall (fun t => is_empty t = true) E2 -> visible a = true -> visible b = true ->
@@ -69,6 +92,18 @@ Example C17_get_ex : spacing_run_of (skipn 1 ex_doc) [mktok KNewline [10]; mktok
 Proof.
   exists [mktok KOther []; mktok KOther []], [mktok KOther [50]].
   repeat split; try reflexivity; repeat constructor.
+Qed.
+
+(* the unconditional clause is false on the unchanged tree (same witness; a = Account, b = Date are
+   consecutive visible tokens, the text between them is the single run "  \n") *)
+Theorem C17_both_sides_refuted : exists pre a gap b post,
+  visible a = true /\ visible b = true /\ forallb (fun t => negb (visible t)) gap = true
+  /\ let d := pre ++ a :: gap ++ b :: post in
+     spacing_after d (length pre) <> spacing_before d (length pre + 1 + length gap)
+     /\ spacing_after d (length pre) <> txt gap.
+Proof.
+  exists [], (mktok KOther [65]), (firstn 4 (skipn 1 finding_doc)), (mktok KOther [50]), [].
+  vm_compute. repeat split; discriminate.
 Qed.
 
 (* the shape hypothesis of C17_both_sides is needed, and parsed documents do contain the other shape:
